@@ -792,3 +792,127 @@ Proof.
     + rewrite traces_ne, traces_par_par. intros (t1 & t2 & -> & H & H2).
       exists t1, t2. intuition (auto; congruence).
 Qed.
+
+Lemma nsort_mconc_meaning c t :
+  nm_valid c = true -> tr EExecuteNSortMConcurrent c t ->
+  exists t1 t2, t = t1 ++ t2 /\
+    ((c_b c = true \/ any_fail (win1 c (c_rules c)) = false) ->
+     t1 = flat_map rule_evs (win1 c (c_rules c)) /\ Interleave (map rule_evs (win2 c (c_rules c))) t2) /\
+    (c_b c = false -> any_fail (win1 c (c_rules c)) = true ->
+     t1 = flat_map rule_evs (upto_fail (win1 c (c_rules c))) /\ t2 = [] /\
+     call_err EExecuteNSortMConcurrent c = true) /\
+    (c_b c = true ->
+     call_err EExecuteNSortMConcurrent c = any_fail (win1 c (c_rules c) ++ win2 c (c_rules c))).
+Proof.
+  intros V H. apply tr_spec in H. rewrite err_spec. cbn [spec] in *. rewrite V in *.
+  now apply nm_sortconc_meaning.
+Qed.
+
+Lemma nconc_msort_meaning c t :
+  nm_valid c = true -> tr EExecuteNConcurrentMSort c t ->
+  exists t1 t2, t = t1 ++ t2 /\ Interleave (map rule_evs (win1 c (c_rules c))) t1 /\
+    (c_b c = true -> t2 = flat_map rule_evs (win2 c (c_rules c))) /\
+    (c_b c = false -> any_fail (win1 c (c_rules c)) = false ->
+     t2 = flat_map rule_evs (upto_fail (win2 c (c_rules c)))) /\
+    (c_b c = false -> any_fail (win1 c (c_rules c)) = true ->
+     t2 = [] /\ call_err EExecuteNConcurrentMSort c = true) /\
+    (c_b c = true ->
+     call_err EExecuteNConcurrentMSort c = any_fail (win1 c (c_rules c) ++ win2 c (c_rules c))).
+Proof.
+  intros V H. apply tr_spec in H. rewrite err_spec. cbn [spec] in *. rewrite V in *.
+  now apply nm_concsort_meaning.
+Qed.
+
+Lemma nconc_mconc_meaning c t :
+  nm_valid c = true -> tr EExecuteNConcurrentMConcurrent c t ->
+  exists t1 t2, t = t1 ++ t2 /\ Interleave (map rule_evs (win1 c (c_rules c))) t1 /\
+    ((c_b c = true \/ any_fail (win1 c (c_rules c)) = false) ->
+     Interleave (map rule_evs (win2 c (c_rules c))) t2) /\
+    (c_b c = false -> any_fail (win1 c (c_rules c)) = true ->
+     t2 = [] /\ call_err EExecuteNConcurrentMConcurrent c = true) /\
+    (c_b c = true ->
+     call_err EExecuteNConcurrentMConcurrent c = any_fail (win1 c (c_rules c) ++ win2 c (c_rules c))).
+Proof.
+  intros V H. apply tr_spec in H. rewrite err_spec. cbn [spec] in *. rewrite V in *.
+  now apply nm_concconc_meaning.
+Qed.
+
+Lemma nm_err e c :
+  In e [EExecuteNSortMConcurrent; EExecuteNConcurrentMSort; EExecuteNConcurrentMConcurrent] ->
+  nm_valid c = true ->
+  call_err e c =
+  if c_b c then any_fail (win1 c (c_rules c) ++ win2 c (c_rules c))
+  else if any_fail (win1 c (c_rules c)) then true else any_fail (win2 c (c_rules c)).
+Proof.
+  intros He V. rewrite err_spec.
+  repeat (destruct He as [<-|He]); [..|destruct He]; cbn [spec]; rewrite V; apply nm_stage_err.
+Qed.
+
+Lemma nm_invalid e c :
+  In e [EExecuteNSortMConcurrent; EExecuteNConcurrentMSort; EExecuteNConcurrentMConcurrent] ->
+  nm_valid c = false -> ran e c = [] /\ call_err e c = true.
+Proof.
+  intros He V. rewrite ran_spec, err_spec.
+  repeat (destruct He as [<-|He]); [..|destruct He]; cbn [spec]; rewrite V; cbn; auto.
+Qed.
+
+Lemma nm_window_only e c r :
+  In e [EExecuteNSortMConcurrent; EExecuteNConcurrentMSort; EExecuteNConcurrentMConcurrent] ->
+  nm_valid c = true -> In r (ran e c) ->
+  In r (firstn (Z.to_nat (c_n c + c_m c)) (c_rules c)).
+Proof.
+  intros He V. rewrite ran_spec, (nm_valid_window c V).
+  repeat (destruct He as [<-|He]); [..|destruct He]; cbn [spec]; rewrite V; apply nm_stage_sub.
+Qed.
+
+Lemma nm_selected_is_stage c :
+  nm_sel_valid c = true ->
+  let l := sort_desc (sel c (c_names c)) in
+  (o_segs (run_prog (hand EExecuteSelectedNSortMConcurrent) c) = fst (nm_stage SortConc c l) /\
+   call_err EExecuteSelectedNSortMConcurrent c = snd (nm_stage SortConc c l)) /\
+  (o_segs (run_prog (hand EExecuteSelectedNConcurrentMSort) c) = fst (nm_stage ConcSort c l) /\
+   call_err EExecuteSelectedNConcurrentMSort c = snd (nm_stage ConcSort c l)) /\
+  (o_segs (run_prog (hand EExecuteSelectedNConcurrentMConcurrent) c) = fst (nm_stage ConcConc c l) /\
+   call_err EExecuteSelectedNConcurrentMConcurrent c = snd (nm_stage ConcConc c l)).
+Proof. intros V l. rewrite !segs_spec, !err_spec. cbn [spec]. rewrite V. auto. Qed.
+
+(* the stage semantics of the three N-M shapes, for any list (used for the selected variants) *)
+Definition nm_entry_sel (k : nm_kind) : entry :=
+  match k with
+  | SortConc => EExecuteSelectedNSortMConcurrent
+  | ConcSort => EExecuteSelectedNConcurrentMSort
+  | ConcConc => EExecuteSelectedNConcurrentMConcurrent
+  end.
+
+Lemma nm_selected_tr k c t :
+  nm_sel_valid c = true ->
+  (tr (nm_entry_sel k) c t <-> traces (fst (nm_stage k c (sort_desc (sel c (c_names c))))) t).
+Proof. intro V. rewrite tr_spec. destruct k; cbn [nm_entry_sel spec]; rewrite V; reflexivity. Qed.
+
+(* ---------- general facts about every entry ---------- *)
+Lemma stage_barrier e c t : tr e c t ->
+  forall s1 s2, o_segs (run_prog (hand e) c) = s1 ++ s2 ->
+  exists t1 t2, t = t1 ++ t2 /\ traces s1 t1 /\ traces s2 t2.
+Proof. unfold tr. intros H s1 s2 E. rewrite E in H. now apply traces_app. Qed.
+
+Lemma subseq_nil_l {A} (t : list A) : Subseq [] t.
+Proof. induction t; constructor; assumption. Qed.
+Lemma subseq_app_l {A} (a p t : list A) : Subseq a t -> Subseq a (p ++ t).
+Proof. intro H. induction p; [exact H | now apply Sub_skip]. Qed.
+Lemma subseq_app_r {A} (a t q : list A) : Subseq a t -> Subseq a (t ++ q).
+Proof.
+  intro H. induction H; cbn.
+  - apply subseq_nil_l.
+  - now apply Sub_skip.
+  - now apply Sub_take.
+Qed.
+
+Lemma start_before_end e c t l s1 s2 :
+  o_segs (run_prog (hand e) c) = s1 ++ Par l :: s2 -> tr e c t ->
+  forall r, In r l -> Subseq [St (en r); En (en r)] t.
+Proof.
+  unfold tr. intros E H r Hr. rewrite E in H. apply traces_app in H.
+  destruct H as (t1 & t2 & -> & _ & H). apply (traces_app [Par l] s2) in H.
+  destruct H as (u1 & u2 & -> & H & _). apply subseq_app_l, subseq_app_r.
+  eapply par_trace_brackets; eassumption.
+Qed.
